@@ -186,7 +186,12 @@ def render_query(q, r: R) -> str:
     """{"first": path, "rest": [[op, path], ...]} -> text"""
     out = render_path(q["first"], r)
     for op, p in q["rest"]:
-        out += " " + (r.tok["union"] if op == "|" else r.tok["inter"]) + " " + render_path(p, r)
+        # with free blanks: any (also empty) run of blanks on either side of the operator
+        # (an empty run only under the default spellings: with custom multi-character spellings the writer needs a blank
+        #  to keep adjacent tokens apart, e.g. `*` followed by `~~` when `*~` is a token too)
+        dflt = r.tok == r.DEFAULT_TOK
+        a, b = (r.rng.choice(([""] if dflt else []) + [" ", "\n", "  ", " "]), r.rng.choice(([""] if dflt else []) + [" ", "\n", "\t ", " "])) if getattr(r, "blanks", False) else (" ", " ")
+        out += a + (r.tok["union"] if op == "|" else r.tok["inter"]) + b + render_path(p, r)
     return out
 
 
